@@ -179,7 +179,7 @@ pub fn main(args: &[String]) -> i32 {
             if near_boundary(&s) {
                 continue;
             }
-            run_scenario(&mut out, &s, i % 4);
+            guarded(&mut out, |o| run_scenario(o, &s, i % 4));
             i += 1;
         }
     }
